@@ -4,6 +4,12 @@ import ast
 from .. import heap as H
 from ..core import AnalysisError, norm, walk_no_nested
 
+
+def _OS_FIELDS(src):
+    from .common import ordered_set_fields
+    return ordered_set_fields(src)
+
+
 META = {
     'design_ref': 'DESIGN.md §5 C10',
     'technique': 'shape-case abstract interpretation (heap of symbolic field/paragraph objects) of the re-ordering, replace/delete and '
@@ -419,7 +425,7 @@ def r5d_element_of_another_paragraph(rep, src):
                     table = heap.new_dict('@table')
                     for k_, n_ in zip(keys, nodes):
                         heap.objs[table.name]['entries'].append((k_, n_))
-                    oset = heap.alloc('OrderedSet', {'_OrderedSet__table': table, '_OrderedSet__order': lst}, name='@set')
+                    oset = heap.alloc('OrderedSet', {_OS_FIELDS(src)[0]: table, _OS_FIELDS(src)[1]: lst}, name='@set')
                     d = heap.new_dict('@elements')
                     for k_ in keys:
                         heap.objs[d.name]['entries'].append((k_, mk_kv(heap, k_, k_.cls + '0')))
@@ -467,7 +473,7 @@ def r5e_element_in_two_paragraphs(rep, src):
             table = heap.new_dict('@table')
             for k_, n_ in zip(keys, nodes):
                 heap.objs[table.name]['entries'].append((k_, n_))
-            oset = heap.alloc('OrderedSet', {'_OrderedSet__table': table, '_OrderedSet__order': lst}, name='@set')
+            oset = heap.alloc('OrderedSet', {_OS_FIELDS(src)[0]: table, _OS_FIELDS(src)[1]: lst}, name='@set')
             d = heap.new_dict('@elements')
             for k_ in keys:
                 heap.objs[d.name]['entries'].append((k_, mk_kv(heap, k_, k_.cls + '0')))
@@ -506,7 +512,7 @@ def r_nodup(rep, src):
         table = heap.new_dict('@table')
         for k, n in zip(keys, nodes):
             heap.objs[table.name]['entries'].append((k, n))
-        oset = heap.alloc('OrderedSet', {'_OrderedSet__table': table, '_OrderedSet__order': lst}, name='@set')
+        oset = heap.alloc('OrderedSet', {_OS_FIELDS(src)[0]: table, _OS_FIELDS(src)[1]: lst}, name='@set')
         d = heap.new_dict('@elements')
         kvs = {}
         for k in keys:
@@ -622,7 +628,7 @@ def r_nodup_histories(rep, src):
         table = heap.new_dict('@table')
         for k, n_ in zip(keys, nodes):
             heap.objs[table.name]['entries'].append((k, n_))
-        oset = heap.alloc('OrderedSet', {'_OrderedSet__table': table, '_OrderedSet__order': lst}, name='@set')
+        oset = heap.alloc('OrderedSet', {_OS_FIELDS(src)[0]: table, _OS_FIELDS(src)[1]: lst}, name='@set')
         d = heap.new_dict('@elements')
         for k in keys:
             heap.objs[d.name]['entries'].append((k, mk_kv(heap, k, k.cls + '0')))
@@ -1006,7 +1012,7 @@ def r_final_newline_helper(rep, src):
                 table = heap.new_dict('@table')
                 for k, n in zip(names, nodes):
                     heap.objs[table.name]['entries'].append((k, n))
-                oset = heap.alloc('OrderedSet', {'_OrderedSet__table': table, '_OrderedSet__order': lst}, name='@set')
+                oset = heap.alloc('OrderedSet', {_OS_FIELDS(src)[0]: table, _OS_FIELDS(src)[1]: lst}, name='@set')
                 d = heap.new_dict('@elements')
                 order = []
                 kvd = {}
@@ -1072,7 +1078,7 @@ def r_sort(rep, src):
             table = heap.new_dict('@table')
             for k, n in zip(keys, nodes):
                 heap.objs[table.name]['entries'].append((k, n))
-            oset = heap.alloc('OrderedSet', {'_OrderedSet__table': table, '_OrderedSet__order': lst}, name='@set')
+            oset = heap.alloc('OrderedSet', {_OS_FIELDS(src)[0]: table, _OS_FIELDS(src)[1]: lst}, name='@set')
             d = heap.new_dict('@elements')
             kvd = {}
             for k in [A, B, C]:        # dictionary order differs from field order on purpose
@@ -1098,9 +1104,9 @@ def r_sort(rep, src):
         else:
             oset2 = heap.objs[para.name]['_kvpair_order']
             o = heap.objs[oset2.name]
-            seq, problems = H.read_list(heap, o['_OrderedSet__order'])
+            seq, problems = H.read_list(heap, o[_OS_FIELDS(src)[1]])
             order = [heap.objs[n.name]['value'].cls + '0' for n in seq]
-            tab = o['_OrderedSet__table']
+            tab = o[_OS_FIELDS(src)[0]]
             if sorted(k.cls for k, _ in heap.objs[tab.name]['entries']) != sorted(x[0] for x in order):
                 problems.append('the key table of the new order does not hold the same fields')
             if sorted(k.cls for k, _ in heap.objs[heap.objs[para.name]['_kvpair_elements'].name]['entries']) != ['a', 'b', 'c']:
